@@ -175,6 +175,19 @@ def run(ctx):
     rnd.shuffle(decls)
     decls.sort(key=lambda d: (-len(d["labels"]), d["perm"] == list(range(1, len(d["perm"]) + 1))))
     picked = decls[: n - 3] + [d for d in decls if len(d["labels"]) == 1][:2] + [d for d in decls if len(d["labels"]) == 2][:1]
+    # the statement speaks of up to FOUR labels with up to four values; TLC's enumeration stops at three labels, so a few declarations
+    # with four labels (and one with four values) are built directly in the same abstract form: inline / label_enum / renamed / alias mixes
+    # under a random order of the label names in the vector
+    def lab(enum, kinds):
+        return {"enum": enum, "vals": [{"kind": k} for k in kinds]}
+    four = [[lab(False, ["plain", "renamed"]), lab(True, ["plain", "plain"]), lab(False, ["renamed", "plain"]), lab(True, ["renamed", "plain"])],
+            [lab(True, ["plain", "alias"]), lab(False, ["plain"]), lab(True, ["renamed", "renamed"]), lab(False, ["plain", "plain"])],
+            [lab(False, ["plain", "renamed", "plain", "renamed"]), lab(True, ["plain", "renamed", "plain", "alias"])],
+            [lab(False, ["plain"]), lab(False, ["plain"]), lab(False, ["renamed"]), lab(True, ["plain", "renamed", "plain"])]]
+    for ls in (four if not quick else four[:3]):
+        perm = list(range(1, len(ls) + 1))
+        rnd.shuffle(perm)
+        picked.append({"labels": ls, "perm": perm})
     cases = []
     src = ["// generated by /verif/bin/check C19 from TLC output (StaticMetric.tla) — do not edit", "#![allow(non_camel_case_types)]"]
     for ci, d in enumerate(picked):
